@@ -16,7 +16,10 @@ import YarlProofs.C06More
 
   Continued in C06HeadlineMore.lean (theorems that need modules which import this file): C11Ctor.lean imports this
   file, so the with_user / with_password read-back on constructor results and on URLs with the invariant `NetlocCanon`
-  (GAPS 4) is stated there as `C06_headline_with_user_password_readback_…`.
+  (GAPS 4) is stated there as `C06_headline_with_user_password_readback_…`.  Also there (C06Decode.lean was added after
+  this file): GAPS 2 — the accessors / unquoters equal the INDEPENDENT textbook specification `Rfc.pctUtf8Decode`
+  (`C06_headline_unquoter_is_pct_utf8_decoding`, `…_unquoter_keep_sets`, `…_accessors_are_pct_utf8_decodings`,
+  `…_query_string_path_safe_decode_utf8`, `…_malformed_undecodable_verbatim_in_context`, `…_keep_and_plus_in_context`).
 
   Vocabulary.  `DecodeSpec b tab s` (C06Spec.lean) is the NON-incremental specification of percent-decoding: tokenize
   `s` into escapes `%XY` / plain characters, group maximal runs of escapes, decode each run as UTF-8 left to right
@@ -463,12 +466,34 @@ GAPS:
     API) `url.query` is: cut at '&', drop empty pieces, split at the first '=', '+' → space, `%XY` → byte, malformed '%'
     kept, UTF-8 decoding with U+FFFD replacement.  For undecodable escapes the clause "kept verbatim" stays false
     (F-C06-query-replace, C06_headline_query_accessor_fails_for_undecodable).
- 2. "equals the UTF-8 percent-decoding": `DecodeSpec` is a specification written for this project; its agreement with
-    "percent-decode to bytes, then UTF-8 decode" is proved only for inputs whose bytes ARE valid UTF-8
-    (C06_decodes_utf8, for UNQUOTER and PATH_UNQUOTER) and characterised piecewise by the C06_spec_* lemmas.  Missing:
-    the same corollary for QS_UNQUOTER (query_string; '+', and "+=&;" stay encoded) and PATH_SAFE_UNQUOTER, and a
-    statement of which characters `uqEmit` keeps encoded for each generated table (its two re-quote character sets) — so
-    "query_string equals the decoding of the raw query" is only as precise as `DecodeSpec` itself.
+ 2. CLOSED by C06_unquoter_is_pctUtf8, C06_decodeSpec_is_pctUtf8, C06_unquoter_keep_sets,
+    C06_unquoter_is_pctUtf8_of_table, C06_accessors_are_pctUtf8_decodings, C06_qs_decodes_utf8,
+    C06_path_safe_decodes_utf8, C06_query_string_path_safe_decode_utf8, C06_pct_malformed_examples,
+    C06_unquoter_keep_examples, C06_utf8Head_textbook, C06_spec_hex_agrees (C06Decode.lean + Lemmas/DecMore.lean; the
+    headline theorems are in the companion file C06HeadlineMore.lean, next to GAPS 4), see
+    C06_headline_spec_is_textbook, C06_headline_unquoter_is_pct_utf8_decoding, C06_headline_unquoter_keep_sets,
+    C06_headline_accessors_are_pct_utf8_decodings, C06_headline_query_string_path_safe_decode_utf8 (+
+    …_fails_for_kept_escape), C06_headline_malformed_undecodable_verbatim_in_context (+
+    C06_headline_malformed_verbatim_side_conditions_needed, C06_headline_malformed_plus_append_in_context),
+    C06_headline_keep_and_plus_in_context.  "equals the UTF-8 percent-decoding" is now proved against an INDEPENDENT
+    specification, `Rfc.pctUtf8Decode keep plusIsSpace` (≈ 40 lines, no reference to the unquoter state machine,
+    `decodeBuf` or `DecodeSpec`; it uses the model's UTF-8 encoder `utf8` only): the four generated unquoters, `DecodeSpec`
+    of their tables, and every string-valued decoded accessor (user, password, path, path_safe, parts, name, suffix,
+    suffixes, query_string, fragment) EQUAL it for EVERY input on both backends, with the `keep` set and '+' flag of each
+    table explicit and COMPUTED from the generated tables (UNQUOTER, PATH_UNQUOTER: nothing kept; PATH_SAFE_UNQUOTER:
+    '/' '%'; QS_UNQUOTER: '+' '=' '&' ';' and '+' = space) — this is the statement of "which characters `uqEmit` keeps
+    encoded" that was missing; the valid-UTF-8 corollary now also holds for QS_UNQUOTER (query_string) and
+    PATH_SAFE_UNQUOTER (path_safe), under the guard "no escape of a kept character" (needed; that is what keeping means).
+    "malformed or undecodable escapes kept verbatim" is proved IN CONTEXT (any text before and after) for `%zz`, `%4`, a
+    trailing `%`, `%FF`, truncated `%E2%82`, overlong `%C0%AF`, surrogate `%ED%A0%80`.  DEVIATIONS the module reports:
+    the `%4` / `%E2%82` examples need a side condition on WHAT FOLLOWS (`%4` must not be followed by a hex digit — `%41`
+    is 'A'; `%E2%82` must not be followed by the escape of a continuation byte — `%E2%82%AC` is '€'); a KEPT escape is
+    RE-QUOTED, not copied: `%2f` reads back `%2F` from path_safe, `%3d` as `%3D` from query_string ("keeping %2F and %25"
+    holds up to hex case).  The specification was also run against /repo's `_quoting_py._Unquoter` and
+    `_quoting_c._Unquoter` (4714 strings x 4 configurations, no mismatch: C06Decode.lean header).
+    WHAT REMAINS: `Rfc.pctUtf8Decode` is itself a specification written for this project (short, independent, with
+    `C06_headline_spec_is_textbook` as its sanity theorem) — there is no external formal UTF-8 / RFC 3986 decoder to
+    compare with; the `query` accessor is `parse_qsl` (errors='replace'), not this decoder (GAPS 1, F-C06-query-replace).
  3. PARTLY CLOSED by C06_build_user_readback / _user_none / _password_readback / _password_none,
     C06_build_host_readback_lower / _ipv4 / _ipv6, C06_build_query_readback / _pairs / _mapping,
     C06_build_query_string_readback / _noplus / _plus_counterexample (C06More.lean), see
